@@ -6,68 +6,75 @@
 (* the library's own decoder (TermOK).  Used at production constants       *)
 (* (m = 0: 255/223) and, for replayed behaviours on which the design and   *)
 (* the code disagree, at the scaled limits.  Executions are concatenated;  *)
-(* each starts with an "einit" event.  "pyenc" events carry frames made by *)
-(* the Python client (mpt.py) and are judged by the same TermOK.           *)
-EXTENDS CobsEnc, Json, IOUtils
-VARIABLE l
+(* each starts with an "einit" event and carries its number in "b".        *)
+(* "pyenc" events carry frames made by the Python client (mpt.py) and are  *)
+(* judged by the same TermOK.                                              *)
+(* An event the specification cannot take is recorded in `bad` and the     *)
+(* rest of that execution is skipped, so one TLC run judges all            *)
+(* executions; the trace is accepted iff `bad` stays empty.                *)
+EXTENDS CobsEnc, Integers, Json, IOUtils
+VARIABLES l, bad, skipb
 TraceLog == ndJsonDeserialize(IOEnv.TRACE)
 
 KOf(arg) == KindOf(arg.kind, arg.m, IF arg.m = 3 THEN 3 ELSE 4)
-Tier2Idle == /\ out' = <<>> /\ run' = <<>> /\ code' = 0 /\ cap' = 0 /\ pre' = 0
-Keep(a) == obs' = [a |-> a, arg |-> [x |-> 0], exp |-> [ret |-> "any"]]
 GuardsOK(ev) == "guards" \in DOMAIN ev.obs => ev.obs.guards = 1
 
-Finish(ev, must) ==
+\* term (must = FALSE) / fin (must = TRUE: the driver offers what is left and grows on request)
+FinishOK(ev, must) ==
   LET r == ev.obs.ret IN
   /\ GuardsOK(ev)
-  /\ Tier2Idle /\ Keep(ev.a) /\ UNCHANGED <<K, msg>>
-  /\ \/ /\ st = "done" /\ r = "ok" /\ UNCHANGED <<acc, st>>          \* repeated report
+  /\ \/ /\ st = "done" /\ r = "ok"                                   \* repeated report
         /\ TermOK(K, msg, "ok", ev.obs.frame, ev.obs.decs)
      \/ /\ st = "run" /\ r = "ok"
-        /\ ev.obs.acc = Len(msg) /\ (must \/ acc = Len(msg))   \* fin offers what is left itself
-        /\ TermOK(K, msg, "ok", ev.obs.frame, ev.obs.decs)
+        /\ ev.obs.acc = Len(msg) /\ (must \/ acc = Len(msg))
         /\ Admits(K, msg)
-        /\ st' = "done" /\ acc' = Len(msg)
-     \/ /\ st = "run" /\ r \in {"nobuf", "todo"} /\ ~must /\ UNCHANGED <<acc, st>>
-     \/ /\ st = "run" /\ r \in {"err", "todo"} /\ ~Admits(K, msg) /\ UNCHANGED <<acc, st>>
+        /\ TermOK(K, msg, "ok", ev.obs.frame, ev.obs.decs)
+     \/ /\ st = "run" /\ r \in {"nobuf", "todo"} /\ ~must
+     \/ /\ st = "run" /\ r \in {"err", "todo"} /\ ~Admits(K, msg)
 
-Step(ev) ==
-  CASE ev.a = "einit" ->
-         /\ K' = KOf(ev.arg) /\ msg' = ev.arg.msg /\ acc' = 0 /\ st' = "run"
-         /\ ev.obs.ret = "ok"
-         /\ Tier2Idle /\ Keep("einit")
-    [] ev.a = "push" ->
-         /\ GuardsOK(ev) /\ Tier2Idle /\ Keep("push") /\ UNCHANGED <<K, msg>>
-         /\ IF ev.obs.ret = "skip" THEN UNCHANGED <<acc, st>>
-            ELSE /\ st = "run"        \* a refused offer ("err") leaves the encoder usable
-                 /\ PushOK(K, SubSeq(msg, acc + 1, acc + ev.obs.k), ev.obs.ret, ev.obs.n)
-                 /\ acc' = acc + ev.obs.n
-                 /\ UNCHANGED st
-    [] ev.a = "grow" -> Tier2Idle /\ Keep("grow") /\ UNCHANGED <<K, msg, acc, st>>
-    [] ev.a = "term" -> Finish(ev, FALSE)
-    [] ev.a = "fin"  -> Finish(ev, TRUE)
-    [] ev.a = "pyenc" ->
-         /\ K' = KOf(ev.arg) /\ msg' = ev.arg.msg /\ acc' = Len(ev.arg.msg)
-         /\ Tier2Idle /\ Keep("pyenc")
-         /\ IF Admits(K', ev.arg.msg)
-            THEN ev.obs.ret = "ok" /\ TermOK(K', ev.arg.msg, "ok", ev.obs.frame, ev.obs.decs) /\ st' = "done"
-            ELSE ev.obs.ret = "err" /\ st' = "dead"
+Judge(ev) ==
+  CASE ev.a = "einit" -> ev.obs.ret = "ok"
+    [] ev.a = "push"  -> /\ GuardsOK(ev)
+                         /\ \/ ev.obs.ret = "skip"
+                            \/ /\ st = "run"        \* a refused offer ("err") leaves the encoder usable
+                               /\ PushOK(K, SubSeq(msg, acc + 1, acc + ev.obs.k), ev.obs.ret, ev.obs.n)
+    [] ev.a = "grow"  -> TRUE
+    [] ev.a = "term"  -> FinishOK(ev, FALSE)
+    [] ev.a = "fin"   -> FinishOK(ev, TRUE)
+    [] ev.a = "pyenc" -> LET KK == KOf(ev.arg) IN
+                         IF Admits(KK, ev.arg.msg)
+                         THEN ev.obs.ret = "ok" /\ TermOK(KK, ev.arg.msg, "ok", ev.obs.frame, ev.obs.decs)
+                         ELSE ev.obs.ret = "err"
     [] OTHER -> FALSE
 
+Tier2Idle == UNCHANGED <<out, run, code, cap, pre, obs>>
+Update(ev) ==
+  CASE ev.a = "einit" -> K' = KOf(ev.arg) /\ msg' = ev.arg.msg /\ acc' = 0 /\ st' = "run" /\ Tier2Idle
+    [] ev.a = "push"  -> /\ acc' = IF ev.obs.ret = "skip" THEN acc ELSE acc + ev.obs.n
+                         /\ UNCHANGED <<K, msg, st>> /\ Tier2Idle
+    [] ev.a \in {"term", "fin"} ->
+                         /\ IF ev.obs.ret = "ok" THEN st' = "done" /\ acc' = Len(msg) ELSE UNCHANGED <<st, acc>>
+                         /\ UNCHANGED <<K, msg>> /\ Tier2Idle
+    [] ev.a = "pyenc" -> K' = KOf(ev.arg) /\ msg' = ev.arg.msg /\ acc' = Len(ev.arg.msg) /\ st' = "done" /\ Tier2Idle
+    [] OTHER -> UNCHANGED vars
+
 TraceInit ==
-  /\ l = 1 /\ K = KCobs /\ msg = <<>> /\ acc = 0 /\ st = "dead"
+  /\ l = 1 /\ bad = <<>> /\ skipb = -1
+  /\ K = KCobs /\ msg = <<>> /\ acc = 0 /\ st = "dead"
   /\ out = <<>> /\ run = <<>> /\ code = 0 /\ cap = 0 /\ pre = 0
   /\ obs = [a |-> "none", arg |-> [x |-> 0], exp |-> [ret |-> "any"]]
 
 TraceNext ==
   /\ l <= Len(TraceLog)
   /\ l' = l + 1
-  /\ Step(TraceLog[l])
+  /\ LET ev == TraceLog[l] IN
+     IF ev.b = skipb THEN UNCHANGED <<vars, bad, skipb>>
+     ELSE IF Judge(ev) THEN Update(ev) /\ UNCHANGED <<bad, skipb>>
+     ELSE PrintT(<<"REJECT", l>>) /\ bad' = Append(bad, l) /\ skipb' = ev.b /\ UNCHANGED vars
 
-TraceSpec == TraceInit /\ [][TraceNext]_<<vars, l>>
+TraceSpec == TraceInit /\ [][TraceNext]_<<vars, l, bad, skipb>>
 
-TraceAccepted ==
-  LET n == TLCGet("stats").diameter - 1 IN
-  /\ PrintT(<<"MATCHED", n>>)
-  /\ n = Len(TraceLog)
+\* checked on the last state: print what was read and what was rejected
+AtEnd == l > Len(TraceLog) => PrintT(<<"MATCHED", l - 1, "REJECTED", Len(bad)>>)
+TraceAccepted == TLCGet("stats").diameter - 1 = Len(TraceLog)
 =============================================================================
